@@ -6,7 +6,7 @@ export CARGO_NET_OFFLINE=true
 REPO="${PV_REPO:-/repo}"
 mkdir -p .cache out evidence
 python3 tools/extract.py --repo "$REPO" --family main
-( cd coq && coq_makefile -f _CoqProject -o Makefile >/dev/null && timeout 900 make -j"$(nproc)" )
+( cd coq && coq_makefile -f _CoqProject -o Makefile >/dev/null && timeout 3000 make -j"$(nproc)" )
 sh model_runner/build.sh
 cp "$REPO/Cargo.lock" harness/Cargo.lock
 ( cd harness && CARGO_TARGET_DIR=../.cache/target cargo build --offline --quiet 2>/dev/null || CARGO_TARGET_DIR=../.cache/target cargo build --offline )
@@ -16,7 +16,7 @@ for f in fam/*/; do
   name=$(basename "$f")
   # a family that does not build must not take the others down: its own checks rebuild and report
   if [ -f "tools/extract_$name.py" ]; then python3 tools/extract.py --repo "$REPO" --family "$name" || echo "WARN: translator of family $name failed"; fi
-  if [ -f "$f/coq/_CoqProject" ]; then ( cd "$f/coq" && coq_makefile -f _CoqProject -o Makefile >/dev/null 2>&1 && timeout 900 make -j"$(nproc)" ) || echo "WARN: coq build of family $name failed"; fi
+  if [ -f "$f/coq/_CoqProject" ]; then ( cd "$f/coq" && coq_makefile -f _CoqProject -o Makefile >/dev/null 2>&1 && timeout 3000 make -j"$(nproc)" ) || echo "WARN: coq build of family $name failed"; fi
   if [ -f "$f/runner/build.sh" ]; then sh "$f/runner/build.sh" || echo "WARN: runner build of family $name failed"; fi
   if [ -f "$f/harness/Cargo.toml" ] && [ ! -f "$f/harness/.built-by-check" ]; then
     cp "$REPO/Cargo.lock" "$f/harness/Cargo.lock"
